@@ -20,6 +20,11 @@ pub struct Case {
     pub n: usize,
     pub template: String,
     pub fault: String,
+    /// statements run after a failed statement that changed nothing, on the store and on a twin
+    /// that never saw the failed statement: each must be accepted/refused alike and leave the
+    /// same graph (a value that was free is still free, a claimed one still claimed)
+    #[serde(default)]
+    pub probes: Vec<String>,
 }
 
 fn render_list(items: &[String]) -> String {
@@ -33,7 +38,8 @@ pub fn build(tape: &[u16]) -> Case {
     let k = t.choose(n);
     let fault_kind = t.choose(3);
     let items: Vec<String> = (0..n).map(|i| format!("{}", 1 + ((i * 3 + t.choose(3)) % 9))).collect();
-    let template = t.choose(8);
+    let template = t.choose(10);
+    let mut probes: Vec<String> = Vec::new();
     let mut setup = Vec::new();
     if t.chance(1, 2) {
         setup.push("CREATE INDEX ON :N(v)".to_string());
@@ -104,7 +110,33 @@ pub fn build(tape: &[u16]) -> Case {
             }
             let victim = 500 + 1 + (k % n);
             let stmt = format!("MATCH (u:U {{uid: {victim}}}) SET u.k = 20");
+            // the victim's own value is still claimed, a fresh one is free
+            probes.push(format!("CREATE (:U {{k: {}, uid: 601}})", 20 + 1 + (k % n)));
+            probes.push("CREATE (:U {k: 99, uid: 602})".to_string());
+            probes.push("CREATE (:U {k: 20, uid: 603})".to_string());
             (stmt, None, vec![], "single_row_set_unique", "duplicate_constrained_value".to_string())
+        }
+        8 | 9 => {
+            // SET n:U refused by one of two unique constraints on :U — the property that was
+            // free must not stay reserved
+            setup.push("CREATE CONSTRAINT ON (u:U) ASSERT u.k IS UNIQUE".to_string());
+            setup.push("CREATE CONSTRAINT ON (u:U) ASSERT u.j IS UNIQUE".to_string());
+            for i in 0..(n + 1) {
+                setup.push(format!("CREATE (:U {{k: {}, j: {}, uid: {}}})", 20 + i, 40 + i, 500 + i));
+            }
+            // the candidate collides on exactly one of the two properties
+            let collide_on_k = template == 8;
+            let hit = k % (n + 1);
+            let (ck, cj) = if collide_on_k { (20 + hit, 90) } else { (91, 40 + hit) };
+            let other = if t.chance(1, 2) { ":X" } else { "" };
+            setup.push(format!("CREATE ({other} {{k: {ck}, j: {cj}, uid: 600}})"));
+            let stmt = "MATCH (x {uid: 600}) SET x:U".to_string();
+            // free values stay free, claimed ones stay claimed
+            let (fk, fj) = if collide_on_k { (92, 90) } else { (91, 93) };
+            probes.push(format!("CREATE (:U {{k: {fk}, j: {fj}, uid: 601}})"));
+            probes.push(format!("CREATE (:U {{k: {}, j: 94, uid: 602}})", 20 + hit));
+            probes.push(format!("CREATE (:U {{k: 95, j: {}, uid: 603}})", 40 + hit));
+            (stmt, None, vec![], "label_set_two_unique_constraints", "duplicate_constrained_value".to_string())
         }
         5 => {
             setup.push("CREATE CONSTRAINT ON (u:U) ASSERT u.k IS UNIQUE".to_string());
@@ -122,7 +154,7 @@ pub fn build(tape: &[u16]) -> Case {
             (stmt, prefix, vec![], "unwind_with_create", fault_name.to_string())
         }
     };
-    Case { g, setup, stmt, prefix, partial, k, n, template: tname.to_string(), fault: fname }
+    Case { g, setup, stmt, prefix, partial, k, n, template: tname.to_string(), fault: fname, probes }
 }
 
 fn fresh(case: &Case) -> Result<GraphStore, String> {
@@ -228,7 +260,36 @@ pub fn judge(case: &Case, kf_active: bool) -> Verdict {
         if let Err(m) = index_consistent(&store) {
             return Verdict::Violation(format!("after the failed `{}`: {m}", case.stmt));
         }
-        return Verdict::Held(case.k > 0 || case.template == "single_row_set_unique");
+        if !case.probes.is_empty() {
+            let mut twin = match fresh(case) {
+                Ok(t) => t,
+                Err(_) => return Verdict::SetupRefused,
+            };
+            let view = |st: &GraphStore| (vcheck::dump::dump_by_uid(st, "uid", "rid", false).render(), vcheck::dump::schema_dump(st));
+            for p in &case.probes {
+                let a = c04::run_write(&mut store, p);
+                let b = c04::run_write(&mut twin, p);
+                let class = |r: &Result<Result<norm::EngineRows, String>, String>| match r {
+                    Ok(Ok(_)) => "accepted",
+                    Ok(Err(_)) => "refused",
+                    Err(_) => "panicked",
+                };
+                if class(&a) != class(&b) || class(&a) == "panicked" {
+                    return Verdict::Violation(format!(
+                        "`{}` failed ({}) and left the dump unchanged, but afterwards `{p}` is {} ({}) while on a store that never ran the failed statement it is {}",
+                        case.stmt,
+                        truncate(&err, 100),
+                        class(&a),
+                        match &a { Ok(Err(e)) | Err(e) => truncate(e, 100), _ => String::new() },
+                        class(&b)
+                    ));
+                }
+                if view(&store) != view(&twin) {
+                    return Verdict::Violation(format!("`{}` failed and left the dump unchanged, but after `{p}` the graph differs from the one on a store that never ran the failed statement", case.stmt));
+                }
+            }
+        }
+        return Verdict::Held(case.k > 0 || case.template == "single_row_set_unique" || case.template == "label_set_two_unique_constraints");
     }
     if kf_active {
         // no statement-level atomicity: the state equals "rows before the failing one applied"
@@ -271,7 +332,7 @@ pub fn run(args: &Args) {
     let mut ev = Evidence::new(
         args,
         "fault_enumeration",
-        "graph x multi-row write statement (UNWIND..CREATE node/path, UNWIND..MERGE..ON CREATE SET, MATCH..SET per node, UNWIND..CREATE and MATCH..SET under a unique constraint, UNWIND..WITH..CREATE) with one fault planted at a generated row position k of n (integer division by zero, operand type error, duplicate constrained value), with and without a property index; if the statement returns an error the id-preserving dump (nodes, labels, typed properties in both stores, relationships), index and constraint lists and index-backed lookups must be exactly as before. Non-trivial = the statement failed and at least one row precedes the fault; distinct = distinct (graph, setup, statement).",
+        "graph x multi-row write statement (UNWIND..CREATE node/path, UNWIND..MERGE..ON CREATE SET, MATCH..SET per node, UNWIND..CREATE and MATCH..SET under a unique constraint, SET n:Label under two unique constraints, UNWIND..WITH..CREATE) with one fault planted at a generated row position k of n (integer division by zero, operand type error, duplicate constrained value), with and without a property index; if the statement returns an error the id-preserving dump (nodes, labels, typed properties in both stores, relationships), index and constraint lists and index-backed lookups must be exactly as before, and follow-up CREATEs probing free and claimed constrained values must be accepted/refused exactly as on a twin store that never ran the failed statement. Non-trivial = the statement failed and at least one row precedes the fault; distinct = distinct (graph, setup, statement).",
     );
     ev.assume("a statement the engine executes despite the planted fault is counted as trivial, not as a violation");
     let kf = Known::load(args);
